@@ -68,6 +68,8 @@ impl PItem {
         cfg.max_items = get("mi", 0)? as u16;
         cfg.ops = get("ops", 0)? as u8;
         cfg.probe = get("pf", 0)? != 0;
+        cfg.hints = get("sh", 1)? != 0;
+        cfg.dropwake = get("dw", 0)? as u8;
         Ok(PItem { key: key.to_string(), kv, cfg, runner })
     }
     pub fn s(&self, k: &str) -> &str {
